@@ -166,15 +166,22 @@ PROPS['C19'] = {
 PROPS['C06'] = {
     'level': 'other',
     'units': ['C06/fmd'],
-    'kani': [],
+    'kani': [
+        {'name': 'dna_complement', 'crate': 'alphabets', 'harness': 'dna_complement_all_bytes', 'timeout': 1200, 'obligation': 'dna::complement on all 256 bytes: Watson-Crick pairs, N fixed, lower-case twins, non-letters fixed - this is the contract of the complement stub of unit C06/fmd (complement(a) == compb(a) on $ACGTNacgtn)'},
+    ],
     'oracle': 'C06',
-    'decided': ['FMDIndex::backward_ext: the returned bi-interval is exactly the bi-interval recurrence (k\' = C[a] + Occ(k-1, a); s\' = Occ(k+s-1, a) - Occ(k-1, a); l\' = l + number of interval rows whose symbol precedes a in the complement order $TGCNAtgcna), no arithmetic failure, match_size + 1',
-                'forward_ext == backward_ext of the swapped interval with the complemented symbol, swapped back', 'init_interval_with, BiInterval::{forward, revcomp, swapped}'],
-    'undecided': ['smems / all_smems (supermaximality over two sweeps with Vec swaps)', 'the step from the recurrence to occurrence sets on a reverse-complement-closed text (Li 2012 bi-interval theorem: assumed, mathematics not code)',
+    'decided': ['"extending a bi-interval by one symbol forwards or backwards yields the bi-interval of the extended string (empty iff it does not occur)" is a POSTCONDITION of the real FMDIndex::backward_ext and forward_ext, and its base case of init_interval_with: for every text t over $ACGTNacgtn that is closed under reverse complement, every sorted suffix array pos of t and every FM index whose occ/less count the BWT of (t, pos), if (lower, lower_rev, size) is the exact bi-interval of a non-empty word w (rows lower.. are precisely the suffixes that start with w, rows lower_rev.. precisely those that start with revcomp(w)) then the result is the exact bi-interval of a.w (resp. w.a); size 0 iff the extended word does not occur',
+                'lemma_sym_multi: the closure hypothesis sym(t) holds for every text concat(s $ revcomp(s) $ for s in S) - the texts the property quantifies over',
+                'the supporting theory in the same unit (LF mapping, backward-search step on multi-sentinel byte texts, refinement of an interval by the next symbol, permutation counting, mirror bijection) is proved from first principles: no axiom',
+                'FMDIndex::backward_ext: the returned bi-interval is exactly the bi-interval recurrence (k\' = C[a] + Occ(k-1, a); s\' = Occ(k+s-1, a) - Occ(k-1, a); l\' = l + number of interval rows whose symbol precedes a in the complement order $TGCNAtgcna), no arithmetic failure, match_size + 1',
+                'forward_ext == backward_ext of the swapped interval with the complemented symbol, swapped back', 'init_interval_with, BiInterval::{forward, revcomp, swapped}',
+                'dna::complement on all 256 bytes (complete Kani proof over the real table): the contract of the complement stub'],
+    'undecided': ['smems / all_smems (supermaximality over two sweeps with Vec swaps): NOT under contract, bounded stand-in only',
+                  'that the real FMIndex handed to FMDIndex counts the BWT of a sorted suffix array (hypothesis fmd_of of the postconditions; C04 proves it of the real Occ/Less tables, C03/SA-IS sortedness is not proved)',
                   'init_interval, From<FMIndex> (alphabet check)'],
-    'trusted': ['abstract FM index (occ/less with the counting laws C04 proves of the real tables: bounds, monotone, 1-Lipschitz)', 'dna::complement stub (table proved in C20)'],
-    'level_text': 'Verus proves the real extension step of the FMD index against the bi-interval recurrence over an abstract FM index whose laws are those C04 proves of the real tables; SMEM enumeration is not decided.',
-    'level_note': 'Level other (partial): extension step only. Trusted: abstract FM index laws, complement stub, Verus/Z3.',
+    'trusted': ['abstract FM index stub (occ/less return socc/sless; the hypothesis fmd_of ties socc/sless to the counts C04 proves of the real tables)', 'dna::complement stub - contract discharged by the Kani harness above'],
+    'level_text': 'Verus proves, on the real backward_ext / forward_ext / init_interval_with, that extending an exact bi-interval by one symbol yields the exact bi-interval of the extended word on every reverse-complement-closed DNA text (theory proved in the same unit, no axiom), and that texts s$revcomp(s)$... are such texts; complement table by a complete Kani proof. SMEM enumeration (smems, all_smems) is not decided.',
+    'level_note': 'Level other (partial): extension steps proved as stated by the property; smems/all_smems bounded stand-in only. Trusted: FM index stub under hypothesis fmd_of, Verus/Z3, Kani/CBMC.',
 }
 
 PROPS['C01'] = {
